@@ -15,6 +15,10 @@ Inductive gact := GCall (f : gfun) | GSoon (f : gfun)
 | GStop.   (* a bare `return` inside a loop body: the remaining iterations are abandoned (the model has no such path) *)
 Definition gprep (g : gact) (p : list gact * bool) : list gact * bool := (cons g (fst p), snd p).
 
+(* what a subscribe / stop-subscribe call of ServiceSubscriber does, in order: record the pair, drop its first record,
+   defer a Subscribe / StopSubscribe transmission for it with call_soon *)
+Inductive sact := SAppend | SRemove | SSoonStart | SSoonStop.
+
 (* what SimpleService.message_received answers: nothing, an error with a return code, the positive response *)
 Require Import Coq.NArith.BinNat.
 Inductive greply := GNoReply | GError (rc : N) | GPositive.
